@@ -3,7 +3,7 @@
    (an empty base is "default relative path": PathCat passes everything through unvalidated, by
    design) of fewer than 2^32 bytes.  Confinement is lexical. *)
 From Coq Require Import ZArith List.
-From PV Require Import C20.C20_Model C20.C20_Proofs.
+From PV Require Import C20.C20_Model C20.C20_Proofs C20.C20_Compose.
 Import ListNotations.
 Local Open Scope Z_scope.
 
@@ -130,3 +130,27 @@ Theorem buffers_fit : forall st base fs, slen base < 4294967296 ->
   forall path fwd, base_path fs <> [] -> pathcat fs path = PcOk (PStr fwd) -> slen fwd + 1 <= PATH_MAX - 2.
 Proof. exact buffers_fit_lemma. Qed.
 Print Assumptions buffers_fit.
+
+(* Compositionality of the decision (what a caller that builds paths piecewise relies on): joining two
+   paths that PathCat accepts with a '/' is accepted whenever the joined string passes the length
+   test, and is forwarded as base ++ joined string ... *)
+Theorem accepted_paths_compose : forall fs p1 p2 f1 f2,
+  base_path fs <> [] ->
+  pathcat fs p1 = PcOk (PStr f1) -> pathcat fs p2 = PcOk (PStr f2) ->
+  slen (p1 ++ SLASH :: p2) + base_path_len fs < PATH_MAX - 2 ->
+  pathcat fs (p1 ++ SLASH :: p2) = PcOk (PStr (base_path fs ++ p1 ++ SLASH :: p2)).
+Proof. exact accepted_paths_compose_lemma. Qed.
+Print Assumptions accepted_paths_compose.
+
+(* ... and, conversely, a path that was refused although it passes the length test (= some prefix of
+   it escapes the base) is refused with EVERY continuation: no suffix ("/x/y", "/../..", ...) makes an
+   escaping prefix acceptable. *)
+Theorem escaping_prefix_never_rescued : forall fs p1 p2,
+  base_path fs <> [] ->
+  slen p1 + base_path_len fs < PATH_MAX - 2 -> pathcat fs p1 = PcOk PNull ->
+  pathcat fs (p1 ++ SLASH :: p2) = PcOk PNull.
+Proof.
+  intros fs p1 p2 Hb Hlen H.
+  exact (escaping_prefix_never_rescued_lemma fs p1 p2 Hb (refused_short_escapes fs p1 Hb Hlen H)).
+Qed.
+Print Assumptions escaping_prefix_never_rescued.
